@@ -431,11 +431,11 @@ PLAN["C17"] = dict(
 
 LEVEL.update({"C17": "exploration"})
 RULE.update({
-    "C17": "case = one cell of {client: receive, Call, Send (write blocked by a peer that does not read, 8 MB), raw Read / ReadBytes / Write on the "
+    "C17": "case = one cell of {client: receive, Call, the receive function returned by Upgrade (its own context; the context given to Upgrade itself live or already cancelled), Send (write blocked by a peer that does not read, 8 MB), raw Read / ReadBytes / Write on the "
            "connection returned by Upgrade; handler: raw Read / ReadBytes / Write on Call.Conn under a context derived in the handler; service: the "
            "per-connection read under the serving context} x transport {unix, tcp, in-memory pipe, bridge subprocess (client side)} x trigger "
            "{cancel, deadline, none = control} x instant {context already dead, blocked with nothing in flight, after a prefix of a frame was "
-           "delivered, trigger fires only after completion}; the harness owns both ends and sends every byte itself. Every cell once (255 cells, "
+           "delivered, trigger fires only after completion}; the harness owns both ends and sends every byte itself. Every cell once (about 330 cells, "
            "bounded-exhaustive), then rapid-generated variations of the prefix length, the number of follow-up frames and their segmentation. "
            "Oracle: the operation returns within 5 s of the trigger (expected: milliseconds) with a context/timeout error when nothing could "
            "complete, or with the right data when everything was available; afterwards operations on the SAME connection with a live context - "
